@@ -1306,7 +1306,7 @@ def part_a2(res, rng, exe, n_inst, stats):
 
 # ------------------------------------------------------------------------------------------ (d) libcola layouts repeated in one process
 LAYOUT_ALGOS = ['ConstrainedFDLayout.run()', 'ConstrainedFDLayout.makeFeasible()+run()', 'ConstrainedMajorizationLayout.run()']
-# tolerances of part (d), measured on /repo HEAD (DESIGN 9.8): repetition is bit-identical (the property asks 1e-9)
+# tolerances of part (d), measured on /repo HEAD (DESIGN 9.9): repetition is bit-identical (the property asks 1e-9)
 D_REPEAT_TOL = 1e-9
 D_MAJ_TOL = 1e-8               # measured <= 1.9e-11 over 2200 plain majorization layouts (translated / permuted)
 D_FD_STRESS_TOL = 1e-2         # measured <= 8.9e-5 (translated, 5700 plain layouts) and <= 2.3e-4 (permuted, 3800)
@@ -1486,7 +1486,7 @@ def part_d(res, rng, exe, n_inst, stats):
         if len(SAMPLES) < 10 and co:
             SAMPLES.append({'call': 'libcola layout thrice with other layouts in between / translated / permuted', 'input': layout_json(I),
                             'positions': r[0][0], 'stress': r[0][1]})
-        # translated frame / permuted node and edge order.  Judged where HEAD is measurably stable (calibration, DESIGN 9.8): no coincident start
+        # translated frame / permuted node and edge order.  Judged where HEAD is measurably stable (calibration, DESIGN 9.9): no coincident start
         # positions, no compound constraints, no overlap avoidance ("plain"): majorization positions to D_MAJ_TOL, force-directed descent by the
         # stress of the result (relative D_FD_STRESS_TOL; the descent stops on a relative stress change of 1e-4, so end positions of two frames
         # can differ by up to 0.27 while their stress agrees to 9e-5).  Every other class is measured and recorded only.
